@@ -47,16 +47,31 @@ Definition to_i64 (n : N) : Z :=
 Record decoder := mkdec { d_rest : bytes; d_err : bool }.
 Definition new_decoder (b : bytes) : decoder := mkdec b false.
 
-(* PopRawBytes(size): make([]byte, size) panics for size < 0 - before the error flag is looked at *)
-Definition pop_raw (n : Z) (d : decoder) : outcome (bytes * decoder) :=
-  if (n <? 0)%Z then Panic
-  else if d_err d then Ok ([], d)
-  else match d_rest d with
-       | [] => Ok ([], mkdec [] true)
-       | _ :: _ =>
-           if (Z.of_nat (length (d_rest d)) <? n)%Z then Ok ([], mkdec (d_rest d) true)
-           else Ok (firstn (Z.to_nat n) (d_rest d), mkdec (skipn (Z.to_nat n) (d_rest d)) false)
-       end.
+(* PopRawBytes(size).
+   HEAD (pinned = false): "if d.err != nil return nil; if size < 0 || size > d.buf.Len() { d.err = ...;
+   return nil }; make; read" - a negative or oversized size is an ERROR of the decoder, never a
+   panic; a zero-size read at the very end of the data still hits io.EOF in read.
+   PINNED tree 0b0db56 (pinned = true): make([]byte, size) came first and panicked for size < 0.
+   The pinned variant is kept only as a record of the defects that were repaired
+   ([open_client_pinned], Example C04_pinned_code_panics); no check ties it to any code now. *)
+Definition pop_raw_gen (pinned : bool) (n : Z) (d : decoder) : outcome (bytes * decoder) :=
+  if pinned then
+    if (n <? 0)%Z then Panic
+    else if d_err d then Ok ([], d)
+    else match d_rest d with
+         | [] => Ok ([], mkdec [] true)
+         | _ :: _ =>
+             if (Z.of_nat (length (d_rest d)) <? n)%Z then Ok ([], mkdec (d_rest d) true)
+             else Ok (firstn (Z.to_nat n) (d_rest d), mkdec (skipn (Z.to_nat n) (d_rest d)) false)
+         end
+  else
+    if d_err d then Ok ([], d)
+    else if (n <? 0)%Z || (Z.of_nat (length (d_rest d)) <? n)%Z then Ok ([], mkdec (d_rest d) true)
+    else match d_rest d with
+         | [] => Ok ([], mkdec [] true)
+         | _ :: _ => Ok (firstn (Z.to_nat n) (d_rest d), mkdec (skipn (Z.to_nat n) (d_rest d)) false)
+         end.
+Notation pop_raw := (pop_raw_gen false).
 
 (* PopLong / PopInt / PopUint: fixed positive size, never panic, 0 on error *)
 Definition pop_fixed (k : nat) (d : decoder) : bytes * decoder :=
@@ -172,18 +187,24 @@ Definition seal_client (key : bytes) (salt sid msgid seq : N) (ack : bool) (body
   do enc <- encrypt obj key;
   Ok (auth_key_id key ++ msg_key obj ++ enc).
 
-(* DeserializeEncrypted.  [guards = true] is the code after the C04 repair (modelled, proved);
-   [guards = false] is the pinned tree: no minimum packet length, and the declared-length test
-   "len(decrypted) < int(messageLen) - 32" which lets negative and oversized lengths through to
-   the slice expression decrypted[0 : 32+messageLen] (int32 arithmetic, wraps). *)
+(* DeserializeEncrypted.  [guards = true] is HEAD: the code after the C04 repairs (minimum packet
+   length 40; auth key of at least minAuthKeyLen = 136 bytes, else an error - before the key id is
+   even looked at, so a short or absent key can never reach the panicking key schedule; declared
+   length within 0..len(decrypted)-32; offset arithmetic in int) - this is what is modelled, proved
+   and compared with the code.
+   [guards = false] is the PINNED tree 0b0db56, kept as a record only: no minimum packet length, no
+   key-length test, the declared-length test "len(decrypted) < int(messageLen) - 32" which lets
+   negative and oversized lengths through to decrypted[0 : 32+messageLen] (int32 arithmetic,
+   wraps), and the PopRawBytes that panicked on a negative size. *)
 Definition open_client_gen (guards : bool) (key data : bytes) : outcome emsg :=
   if guards && (length data <? 40)%nat then Err else
+  if guards && (length key <? 136)%nat then Err else
   let d := new_decoder data in
-  do r1 <- pop_raw 8 d;
+  do r1 <- pop_raw_gen (negb guards) 8 d;
   if negb (beq (fst r1) (auth_key_id key)) then Err else
-  do r2 <- pop_raw 16 (snd r1);
+  do r2 <- pop_raw_gen (negb guards) 16 (snd r1);
   let mk := fst r2 in
-  do r3 <- pop_raw (Z.of_nat (length data) - 24) (snd r2);
+  do r3 <- pop_raw_gen (negb guards) (Z.of_nat (length data) - 24) (snd r2);
   do dec <- decrypt (fst r3) key mk;
   let '(salt, sid, msgid, seq, lenw, d) := pop_header (new_decoder dec) in
   let mlen := to_i32 lenw in
@@ -195,7 +216,7 @@ Definition open_client_gen (guards : bool) (key data : bytes) : outcome emsg :=
   if (hi <? 0)%Z || (dlen <? hi)%Z then Panic else
   let trimmed := firstn (Z.to_nat hi) dec in
   if negb (beq (slice (sha1 trimmed) 4 20) mk) then Err else
-  do r4 <- pop_raw mlen d;
+  do r4 <- pop_raw_gen (negb guards) mlen d;
   Ok (mkemsg salt sid msgid seq mk (fst r4)).
 
 Definition open_client := open_client_gen true.
